@@ -14,6 +14,7 @@
 From Coq Require Import ZArith List Bool Reals. Import ListNotations.
 From PV Require Import Num NumR model.Geom proofs.LatticeFacts proofs.SiteFacts proofs.OverlapFacts proofs.ConvexFacts proofs.PackingFacts proofs.MotionFacts.
 From PV Require Import gen.GenFns proofs.SourceFacts.
+From PV Require Import gen.GenFns proofs.SourceFacts proofs.SearchFacts.
 
 Theorem C12_seg_yes_gives_common_point :
   forall s o : segR, seg_intersects NumR s o = true -> exists ta tb : R, (0 <= ta <= 1)%R /\ (0
@@ -142,4 +143,12 @@ Theorem S_from_radial_is_source :
     points))).
 Proof. exact from_radial_is_source. Qed.
 Print Assumptions S_from_radial_is_source.
+
+
+Theorem S_shape_intersects_is_source :
+  forall (NN : Num) (l m : list (seg NN)) (a b : list (disc NN)), gen_poly_intersects NN l m =
+    shape_intersects NN (Poly l) (Poly m) /\ gen_mol_intersects NN a b = shape_intersects NN
+    (Mol a) (Mol b).
+Proof. exact shape_intersects_is_source. Qed.
+Print Assumptions S_shape_intersects_is_source.
 
